@@ -78,9 +78,9 @@ func readStep(c *Case, shared kit.AnyBuf, code, r, k int) string {
 		}
 		out, n := v.ReadStripedVals(lens)
 		return fmt.Sprint(out, n)
-	case 5: // slicing the shared header anywhere (no data access)
+	case 5: // slicing the shared header anywhere, also into its spare capacity (no data access)
 		a := k % (c.F + 1)
-		v := shared.Slice(a, c.F)
+		v := shared.Slice(a, c.F+(k+r)%(spareFrames(c)+1))
 		return fmt.Sprint(v.Hdr())
 	case 6: // channel view reads
 		if c.RO == 0 {
@@ -195,11 +195,11 @@ func valid(c *Case) bool {
 	return true
 }
 
+// spareFrames: frames of capacity beyond the length of the shared buffer.
+func spareFrames(c *Case) int { return 2 + c.F%3 }
+
 func fill(c *Case) kit.AnyBuf {
-	spare := 0
-	if c.Partial > 0 {
-		spare = 1
-	}
+	spare := spareFrames(c)
 	b := kit.AllocAny(c.T, signal.Allocator{Channels: c.C, Length: c.F, Capacity: c.F + spare})
 	for i := 0; i < b.Len(); i++ {
 		b.Set(i, kit.IV(int64(1+i%100)))
